@@ -1,5 +1,5 @@
 // counterexamples for harness c17::c17_time_nat_shift_stays_nat (property C17); replay: ./check C17 --replay <this file>
-// features: c17
+// features: c17,thorough
 #![allow(unused_imports)]
 use crate::c17::*;
 
